@@ -1,7 +1,8 @@
 /-
   Proofs.RefineAlloc — the three allocation entry points of `Core` (both flavours, all freelist kinds)
   refine the abstract allocator: same answer, tracked state, no trap, no divergence, zero-filled
-  `alloc_bytes`, live bytes intact. (statement file: every `sorry` below is a proof obligation)
+  `alloc_bytes`, live bytes intact. (all statements proved; the only external dependency still open is
+  `freelistDealloc_refines` of Proofs.RefineDealloc, used as stated)
 -/
 import RarenaVerif.Proofs.RefineDealloc
 
@@ -867,5 +868,102 @@ theorem allocT_refines (c : Cfg) (s : St) (free : List Seg) (lives : List Ext) (
         refine ⟨alignTo_ok _ _ _ (by unfold TWO32 at *; omega), rfl, rfl, ?_, ?_⟩
         · simp only [Meta.alignToS]; exact g1
         · simp only [Meta.alignToS]; omega
+
+theorem allocAligned_refines (c : Cfg) (s : St) (free : List Seg) (lives : List Ext) (tsize talign extra fuel : Nat)
+    (h : CInv c s free lives) (ht : TyOK tsize talign) (he : extra < TWO32) (hfuel : free.length + 2 ≤ fuel) :
+    AllocRefines c s free lives ((s.abs free).allocAligned c tsize talign extra)
+      (allocAligned c s tsize talign extra fuel) false := by
+  have hcap := h.cap_le
+  have hal := h.alloc_le
+  obtain ⟨hta, htm, hts⟩ := ht
+  have hab := okAlignment_bounds hta
+  have hge := alignUp_ge talign
+  have hlt := alignUp_lt talign
+  by_cases hro : c.ro = true
+  · have hr : (s.abs free).allocAligned c tsize talign extra = (.error .readOnly, s.abs free) := by
+      unfold A.allocAligned; rw [if_pos hro]
+    have hc : allocAligned c s tsize talign extra fuel = .ok (.error .readOnly, s) := by
+      unfold allocAligned; rw [if_pos hro]; rfl
+    rw [hr, hc]; exact AllocRefines.err ..
+  · by_cases hz : tsize = 0 ∧ (extra = 0 ∨ talign = 1)
+    · have hr : (s.abs free).allocAligned c tsize talign extra = (s.abs free).allocBytes c extra := by
+        unfold A.allocAligned; rw [if_neg hro, if_pos hz]
+      have hc : allocAligned c s tsize talign extra fuel = allocBytes c s extra fuel := by
+        unfold allocAligned; rw [if_neg hro, if_pos hz]
+      rw [hr, hc]
+      exact (allocBytes_refines c s free lives extra fuel h he hfuel).weaken false
+    · have h1 := hge s.allocated hta
+      have h2 := hlt s.allocated hta
+      have hao : alignOffset talign s.allocated = .ok (alignUp talign s.allocated) :=
+        alignOffset_ok _ _ (by unfold TWO32 at *; omega)
+      have hadd : addU32 "aligned+size" (alignUp talign s.allocated) tsize = .ok (alignUp talign s.allocated + tsize) :=
+        addU32_ok _ _ _ (by unfold TWO32 at *; omega)
+      by_cases hfit : alignUp talign s.allocated + tsize + extra ≤ s.mem.size
+      · have hr : (s.abs free).allocAligned c tsize talign extra =
+            (.ok (some ((Meta.new s.allocated
+                (alignUp talign s.allocated + tsize + extra - s.allocated)).alignBytesToS talign)),
+              { s.abs free with allocated := alignUp talign s.allocated + tsize + extra }) := by
+          unfold A.allocAligned
+          rw [if_neg hro, if_neg hz]
+          simp only []
+          rw [if_pos (show alignUp talign (s.abs free).allocated + tsize + extra ≤ (s.abs free).cap from hfit)]
+          rfl
+        have hc : allocAligned c s tsize talign extra fuel =
+            .ok (.ok (some ((Meta.new s.allocated
+                (alignUp talign s.allocated + tsize + extra - s.allocated)).alignBytesToS talign)),
+              { s with allocated := alignUp talign s.allocated + tsize + extra }) := by
+          unfold allocAligned
+          rw [if_neg hro, if_neg hz, hao]
+          simp only [bind, Except.bind, hadd]
+          rw [checkedAdd_filter_some _ _ _ (show alignUp talign s.allocated + tsize + extra ≤ s.cap from hfit)
+            (show s.mem.size < TWO32 by omega)]
+          simp only []
+          rw [alignBytesTo_ok _ _ (by simp only [Meta.new]; unfold TWO32 at *; omega)
+            (by simp only [Meta.new]; unfold TWO32 at *; omega) (by simp only [Meta.new]; omega)]
+          rfl
+        have hwf := (allocAligned_ok c _ _ lives tsize talign extra _ h.wf ⟨hta, htm⟩ hr).1.wf
+        rw [hr, hc]
+        obtain ⟨b1, b2⟩ := bump_refines h _ (alignUp talign s.allocated + tsize + extra) s.mem hwf rfl (fun _ _ => rfl)
+        exact ⟨_, rfl, b1, b2, fun hf => by cases hf⟩
+      · by_cases hp : pad tsize talign + extra < TWO32
+        · have hr : (s.abs free).allocAligned c tsize talign extra =
+              (s.abs free).slowEntry c (pad tsize talign + extra) (fun m => m.alignBytesToS talign) := by
+            unfold A.allocAligned
+            rw [if_neg hro, if_neg hz]
+            simp only []
+            rw [if_neg (show ¬ alignUp talign (s.abs free).allocated + tsize + extra ≤ (s.abs free).cap from hfit),
+              if_pos hp]
+          have hc : allocAligned c s tsize talign extra fuel =
+              (do let r ← slowEntry c s (pad tsize talign + extra) fuel (fun m => m.alignBytesTo talign)
+                  pure (liftRes r)) := by
+            unfold allocAligned
+            rw [if_neg hro, if_neg hz, hao]
+            simp only [bind, Except.bind, hadd]
+            rw [checkedAdd_filter_none _ _ _ (show ¬ alignUp talign s.allocated + tsize + extra ≤ s.cap from hfit)]
+            simp only [checkedAddU32, if_pos hp]
+          rw [hr, hc]
+          refine slowEntry_refines h (by simpa using hro) _ fuel (by unfold pad; omega) hfuel _ _ ?_ false
+          intro m hm1 hm2
+          have g1 := hge m.ptrOff hta
+          have g2 := hlt m.ptrOff hta
+          unfold pad at hm1
+          refine ⟨alignBytesTo_ok _ _ (by unfold TWO32 at *; omega) (by unfold TWO32 at *; omega) (by omega),
+            rfl, rfl, ?_, ?_⟩
+          · simp only [Meta.alignBytesToS]; exact g1
+          · simp only [Meta.alignBytesToS]; omega
+        · have hr : (s.abs free).allocAligned c tsize talign extra = (.error .insufficient, s.abs free) := by
+            unfold A.allocAligned
+            rw [if_neg hro, if_neg hz]
+            simp only []
+            rw [if_neg (show ¬ alignUp talign (s.abs free).allocated + tsize + extra ≤ (s.abs free).cap from hfit),
+              if_neg hp]
+          have hc : allocAligned c s tsize talign extra fuel = .ok (.error .insufficient, s) := by
+            unfold allocAligned
+            rw [if_neg hro, if_neg hz, hao]
+            simp only [bind, Except.bind, hadd]
+            rw [checkedAdd_filter_none _ _ _ (show ¬ alignUp talign s.allocated + tsize + extra ≤ s.cap from hfit)]
+            simp only [checkedAddU32, if_neg hp]
+            rfl
+          rw [hr, hc]; exact AllocRefines.err ..
 
 end Rarena
